@@ -98,6 +98,18 @@ def unexpected {α : Type} (token : Item) : P α := do
   modify fun s => { s with tok0 := token, peekCount := 0 }
   errorf
 
+/-- `atTextStart(tok)` of parse.go: the text token positioned at its first non-blank character —
+    not space, tab, CR, LF (`isSpaceEOL`).  A token's position is its end; a text token runs through
+    the line breaks and the indentation behind the text.  Used by the file parser: stray text between
+    the params of a {call} or the cases of a {switch} is reported where the text begins (/repo
+    ac1c871).  (`tok.pos - len(tok.val)` is the start of the token, never negative for a token of
+    the lexer; `start + i` is written `pos + i - len` so that it is Go's value whenever that is not
+    negative.) -/
+def atTextStart (tok : Item) : Item :=
+  match tok.val.findIdx? (fun b => !(b == 32 || b == 9 || b == 13 || b == 10)) with
+  | some i => { tok with pos := tok.pos + i - tok.val.length }
+  | none => tok
+
 def expect (expected : ItemType) : P Item := do
   let token ← next
   if token.typ != expected then unexpected token
